@@ -98,6 +98,7 @@ type Exec struct {
 	aliasN  int
 	keepVar map[types.Object]bool // function-level locals mentioned in ensures clauses: kept across merges
 	calledObj map[string]types.Object   // callee name -> ghost "has been called" flag
+	lockObj   map[string]types.Object   // text of a mutex expression the function locks -> ghost depth counter (Lock +1, Unlock -1)
 	lastRetObj map[string][]types.Object // callee name -> ghost copies of the results of the last call
 }
 
